@@ -253,3 +253,53 @@ func VerifC05TxnOrder(h *verifh.H) {
 	h.Assert(match(sTW) || match(sWT), "listing, feed, queries and lookups of both datasets answer as one serial order of the two acknowledged writes would :: a: "+gotA+" b: "+gotB)
 	h.Observe("other", other)
 }
+
+// VerifC05CreateRace: two clients concurrently assert (create) the same, not
+// yet existing dataset and each writes a batch through the dataset it was
+// handed — what transforms and POST /datasets/:name do. Scheduling is symbolic
+// at the marked boundaries and before every lock acquisition. Both clients
+// must end up with the same dataset (one internal id) and both acknowledged
+// batches must be in its listing, feed and lookups.
+func VerifC05CreateRace(h *verifh.H) {
+	hub := VerifNewHub(h)
+	var ds [2]*Dataset
+	var cerr, werr [2]error
+	ids := []string{"ns0:e1", "ns0:e2"}
+	h.SymbolicLocks()
+	h.SymbolicSched(h.Param("preemptions", 2))
+	for k := 0; k < 2; k++ {
+		k := k
+		h.Go(func() {
+			ds[k], cerr[k] = hub.Dsm.CreateDataset("shared", nil)
+			if cerr[k] == nil && ds[k] != nil {
+				e := NewEntity(ids[k], 0)
+				e.Properties["ns0:v"] = "w" + itoa(k)
+				werr[k] = ds[k].StoreEntities([]*Entity{e})
+			}
+		})
+	}
+	h.Assert(h.Wait(), "both clients complete")
+	h.Assert(cerr[0] == nil && cerr[1] == nil && ds[0] != nil && ds[1] != nil, "both clients are handed the dataset")
+	h.Assert(werr[0] == nil && werr[1] == nil, "both batches are acknowledged")
+	if ds[0] == nil || ds[1] == nil {
+		return
+	}
+	h.Assert(ds[0].InternalID == ds[1].InternalID, "both clients are handed the same dataset :: ids "+itoa(int(ds[0].InternalID))+" and "+itoa(int(ds[1].InternalID)))
+	cur := hub.Dsm.GetDataset("shared")
+	h.Assert(cur != nil, "the dataset exists")
+	if cur == nil {
+		return
+	}
+	res, err := cur.GetEntities("", -1)
+	h.Assert(err == nil, "listing")
+	got := vJoin(vSorted(vRenderList(res.Entities)))
+	want := "ns0:e1|del=false|props{ns0:v=w0;}|refs{},ns0:e2|del=false|props{ns0:v=w1;}|refs{}"
+	h.Assert(got == want, "both acknowledged batches are in the dataset :: got="+got)
+	ch, err := cur.GetChanges(0, 0, false)
+	h.Assert(err == nil && len(ch.Entities) == 2, "both acknowledged batches are in the feed")
+	for k := 0; k < 2; k++ {
+		e, err := hub.Store.GetEntity(ids[k], []string{"shared"}, true)
+		h.Assert(err == nil && e != nil && len(e.Properties) == 1, "an acknowledged entity is found by a lookup scoped to the dataset :: "+ids[k])
+	}
+	h.Observe("n", len(res.Entities))
+}
